@@ -53,13 +53,6 @@ Definition table_ctor (m : smatrix) (oids sids : list str) (omd smd : option (li
   then RErr E_TABLE
   else ROk (mkLd oids sids mat omd smd ty id_ genby date ogmd sgmd).
 
-(* the nested helper axis_load of the method (pinned by AST hash in the signature file) *)
-Definition axis_load_prim (f : h5) (grp : path) : result (list str * option (list mdrow) * list (str * str)) :=
-  match grp with
-  | [a] => axis_load f a
-  | _ => RErr E_UNMODELLED
-  end.
-
 (* ------------------------------------------------------------------ inside axis_load *)
 (* the two parsers of the defaults table; a parser table is a defaultdict: name -> parser *)
 Inductive pkind := P_general | P_vlen_list.
